@@ -6,5 +6,5 @@ KProp == {"param", "paramw", "bind1", "bind2", "rx", "nested", "nestedb", "const
 KClamp == {"param", "bind1", "rx", "meth"}
 KBasic == {"param", "bind1", "nested"}
 AUpd == {"source", "updctx", "ref"}
-AAll == {"source", "ref", "plain", "updctx"}
+AAll == {"source", "ref", "plain", "updctx", "trigger"}
 ====
